@@ -16,10 +16,11 @@ def serialize_python(*elements: Element) -> str:
         to serialize.
     :return: Python module contents as a string, declaring the element tree.
     """
+    object_models = list(orderer(*elements))
     declarations = "\n\n".join(
-        [object_model.python() for object_model in orderer(*elements)]
+        [object_model.python() for object_model in object_models]
     )
-    imports = _get_imports(declarations, *elements)
+    imports = _get_imports(declarations, *elements, *object_models)
     return "\n\n\n".join(block for block in [imports, declarations] if block)
 
 
